@@ -13,29 +13,46 @@ LEVEL_TEXT = ('Full in exact arithmetic: Coq theorems over R about predict / cor
               'consistent initial acceleration, every sequence of non-zero variable steps (premise shown necessary by a refutation witness); '
               'rigid translation at constant velocity exact for every sequence of steps (M positive definite, K >= 0, K c = 0); '
               'partition of unity => kinetic energy of a rigid velocity = 1/2 rho area |v|^2 and total consistent mass = rho area. '
-              'That the assembled forms of a given mesh satisfy these hypotheses, and everything in binary64, is covered by the '
-              'correspondence on the real DynamicsFunctions (dense Newton solve of the algorithmic energy inside the harness).')
+              'The hypotheses on the forms are DISCHARGED for the quadrature model of the mesh integrals (model/M_C15_FE.v: any mesh = list of elements with '
+              'connectivity and per-quadrature-point volume weight, shape values, shape gradients; kinetic_energy_density, linear_strain, '
+              '_linear_elastic_energy_density, _make_properties regenerated; plane strain): mass form sum_q w_q rho u(x_q).v(x_q) and stiffness form '
+              'sum_q w_q eps(u):C:eps(v) are symmetric bilinear for every mesh; reported kinetic / strain / algorithmic energies = 1/2 m(v,v), 1/2 k(u,u), '
+              'alg_energy(m,k); m >= 0 and k >= 0 for w_q >= 0 (rho, mu, kappa >= 0; mu, kappa > 0 from E > 0, -1 < nu < 1/2); null space of m = fields '
+              'vanishing at all quadrature points, so M is positive definite <=> the quadrature points are unisolvent (definiteness from w_q > 0 alone '
+              'REFUTED by a witness: under-integration); K c = 0 for translations from sum_a grad N_a = 0 (C03); energy conservation and rigid '
+              'translation restated over the modelled energies with no hypothesis on forms; total mass m(c,c\') = rho * sum_q w_q * c.c\' from the '
+              'partition of unity; composed with C03 (meshes built from reference tables satisfying the certificate predicates RefIds/TriQuadExact): '
+              '|total mass - rho * area * c.c\'| <= |rho c.c\'| area ((1+2 epsq) eps (2+eps) + 2 epsq), exact for exact tables. '
+              'Still premises: unisolvence (false for admitted under-integrating rules; checked numerically), K c = 0 only exact for exact tables, '
+              'the mesh-integral model is tied to FunctionSpace/Mechanics by correspondence (binary64 energies, forms, algorithmic energy on real '
+              'function spaces incl. an under-integrated order-2 one), axisymmetric / pressure projection not modelled; everything in binary64 is '
+              'covered by the correspondence on the real DynamicsFunctions (dense Newton solve of the algorithmic energy inside the harness).')
 TECHNIQUE = 'Coq proof (Reals + Coquelicot) over kernels regenerated from the Python AST + field model; vm_compute/PrimFloat correspondence'
-GEN = ['Mechanics']
-TARGETS = ['proofs/L_C15.vo', 'model/M_C15_Newmark.vo']
-COQ_FILES = ['base/Num.v', 'model/M_C15_Newmark.v', 'proofs/L_C15.v', 'props/P_C15.v']
+GEN = ['Mechanics', 'TensorMath', 'LinearElastic']
+ANCHOR_FILES = ['optimism/FunctionSpace.py']     # hand-modelled in model/M_C15_FE.v: interpolate_to_point, compute_quadrature_point_field_gradient, integrate_over_block
+TARGETS = ['proofs/L_C15.vo', 'model/M_C15_Newmark.vo', 'model/M_C15_FE.vo', 'proofs/L_C15fe.vo', 'proofs/L_C15fe_C03.vo']
+COQ_FILES = ['base/Num.v', 'model/M_C15_Newmark.v', 'model/M_C15_FE.v', 'proofs/L_C15.v', 'proofs/L_C15fe.v', 'proofs/L_C15fe_C03.v', 'props/P_C15.v']
 TRUSTED = ['Coq 8.16.1 kernel + vm_compute (no native_compute)',
            'tools/vlib/py2coq.py translator (Python ast -> Gallina over Num T; closure variable newmarkParameters as leading parameters gamma, beta; arrays elementwise), cross-checked by running the generated kernels at binary64 against DynamicsFunctions.predict/correct on arrays',
            'field model model/M_C15_Newmark.v (algorithmic energy as in compute_newmark_lagrangian; kinetic energy as weighted sum over quadrature points), cross-checked at binary64 against compute_output_kinetic_energy / compute_element_masses on real function spaces',
-           'harness: dense Newton minimisation of DynamicsFunctions.compute_algorithmic_energy with jax.grad/jax.hessian (the library solver is not part of this property); tolerances: kernels 8 ulp, balance/update 1e-9 relative, energy drift 1e-10 * E0 * steps',
+           'mesh-integral model model/M_C15_FE.v (interpolate_to_point, compute_quadrature_point_field_gradient, zero padding of tensor_2D_to_3D, integrate_over_block, compute_newmark_lagrangian composed with the regenerated LinearElastic / TensorMath / Mechanics kernels), cross-checked at binary64 (relative 1e-12 of the rounding scale = sum of |terms| / Cauchy-Schwarz scale of the forms) against compute_output_kinetic_energy, compute_output_strain_energy, compute_algorithmic_energy and u.M.v, u.K.v with the jax Hessians, on real function spaces (order 1, order 2 fully and under-integrated); fs.shapes / fs.shapeGrads / fs.vols / mesh.conns are read from the function space',
+           'C03 development (proofs/L_C03lift.v, L_C03cert.v): lifting theorems and certificate predicates used by the composition theorems',
+           'harness: dense Newton minimisation of DynamicsFunctions.compute_algorithmic_energy with jax.grad/jax.hessian (the library solver is not part of this property); tolerances: kernels 8 ulp, balance/stationarity 1e-8 of the two forces + rounding floor 1e-14 sqrt(n) (|K| |U1| + |M| (|U1|+|Up|)/(beta dt^2)) (the forces vanish by cancellation in a rigid translation), update 1e-11 relative, energy drift 1e-10 * E0 * steps',
            'theorems are over exact reals; binary64 rounding is covered only by the correspondence']
 ASSUMPTIONS = ['exact real arithmetic in theorems; dt <> 0 and beta <> 0 stated explicitly (division in correct)',
-               'mass form m and stiffness form k are symmetric bilinear forms on fields (Section hypotheses sbf); for translation also m positive definite, k positive semi-definite, k c = 0; checked numerically on the assembled Hessians in every run',
+               'abstract theorems: mass form m and stiffness form k are symmetric bilinear forms on fields (Section hypotheses sbf); for translation also m positive definite, k positive semi-definite, k c = 0 -- all proved for the quadrature model of the forms (C15_fe_*) except definiteness, which is proved EQUIVALENT to unisolvence of the quadrature points (premise; smallest eigenvalue of the assembled mass matrix checked numerically in every run)',
+               'C15_fe_* theorems: premises on the mesh data are stated explicitly (w_q >= 0 or > 0; one shape value / gradient per element node; shape values sum to 1; shape gradients sum to 0); they follow from C03 for meshes built from reference tables satisfying RefIds / TriQuadExact (C15_c03_mesh_premises); checked numerically on fs.shapes / fs.shapeGrads / fs.vols of every problem',
                'the minimiser is an oracle returning a stationary point of the algorithmic energy (hypothesis stationary_at)',
                'general strain energies: directional differentiability (hypothesis HdSE); proved outright for the quadratic energy',
                'partition of unity of the shape functions at the quadrature points (premise of the mass theorems; property C03)',
                'functional extensionality (standard library axiom) for equality of fields']
-RULE = ('additional problems in every tier: element order 2 (thorough: also 3) with UNDER-integrating rules (degree 2 / 4) on distorted meshes with non-rigid initial velocity, energy measured with the library\'s own compute_output_kinetic_energy + compute_output_strain_energy; entrywise equality of the mass driving the integrator (beta dt^2 (Hessian of the algorithmic energy - K)) and the mass of the reported kinetic energy. '
+RULE = ('mesh-integral model stream (fe_model): on three real function spaces per run (structured order 1; distorted order 2 with the under-integrating degree-2 rule; distorted order 2 fully integrated) the arrays fs.shapes / fs.shapeGrads / fs.vols / mesh.conns are fed to model/M_C15_FE.v and its kinetic, strain and algorithmic energies, mass and stiffness forms on seeded random fields (displacement amplitude 5% of the width, random predictor offset, dt over two decades) and total volume are compared with the library\'s reported energies and the jax Hessians of them; a problem is distinct by (mesh, order, rule, material constants). '
+        'additional problems in every tier: element order 2 (thorough: also 3) with UNDER-integrating rules (degree 2 / 4) on distorted meshes with non-rigid initial velocity, energy measured with the library\'s own compute_output_kinetic_energy + compute_output_strain_energy; entrywise equality of the mass driving the integrator (beta dt^2 (Hessian of the algorithmic energy - K)) and the mass of the reported kinetic energy. '
         'meshes: structured, random extents and divisions, element order 1 and 2; material: linear elastic with random E, nu, density; '
         'Newmark parameters: trapezoidal and random (gamma >= 1/2, beta >= (gamma+1/2)^2/4); random initial displacement/velocity fields with '
         'consistent initial acceleration; variable time steps over two decades. Kernel inputs: random scalars over ten decades incl. exact '
         'dyadic ones. A step is non-trivial when displacement, velocity and acceleration are all non-zero; distinct = distinct (mesh, parameters, step)')
-IMPORTS = ['From OV.gen Require Import Gen_Mechanics.', 'From OV.model Require Import M_C15_Newmark.']
+IMPORTS = ['From OV.gen Require Import Gen_Mechanics Gen_LinearElastic.', 'From OV.model Require Import M_C15_Newmark M_C15_FE.']
 
 
 def fl(x):
@@ -112,6 +129,33 @@ class Problem:
         self.gse, self.gke = jax.jit(jax.grad(se)), jax.jit(jax.grad(ke))
         self.hse, self.hke = jax.jit(jax.hessian(se)), jax.jit(jax.hessian(ke))
 
+    def op_norms(self):
+        """infinity norms of the mass and (rest-state) stiffness matrices: scales of the individual terms of M A + K U before cancellation"""
+        if not hasattr(self, '_norms'):
+            I = impl()
+            z = I['jnp'].zeros(self.n)
+            M, K = I['onp'].array(self.hke(z)), I['onp'].array(self.hse(z))
+            self._norms = (float(abs(M).sum(axis=1).max()), float(abs(K).sum(axis=1).max()))
+        return self._norms
+
+    def rounding_floor(self, U1, Up, dt):
+        """size of the rounding error of  K U1 + M (U1 - Up) / (beta dt^2)  evaluated in binary64: each term is a sum of n products of
+        the stated magnitudes (the result itself may be zero by cancellation, e.g. in a rigid translation where both forces vanish)"""
+        jnp = impl()['jnp']
+        Mn, Kn = self.op_norms()
+        u1, up = float(jnp.max(jnp.abs(U1))), float(jnp.max(jnp.abs(Up)))
+        return 1e-14 * math.sqrt(self.n) * (Kn * u1 + Mn * (u1 + up) / (self.beta * dt * dt))
+
+    def min_detF(self, U):
+        """smallest det(I + grad u) over all quadrature points (the property quantifies over uninverted configurations)"""
+        I = impl()
+        onp = I['onp']
+        Ue = onp.array(U).reshape(self.shape)[onp.array(self.mesh.conns)]            # (ne, nen, 2)
+        G = onp.einsum('eai,eqaj->eqij', Ue, onp.array(self.fs.shapeGrads))          # (ne, nq, 2, 2)
+        F = G + onp.eye(2)
+        d = F[..., 0, 0] * F[..., 1, 1] - F[..., 0, 1] * F[..., 1, 0]
+        return float(d.min()) if onp.all(onp.isfinite(d)) else float('-inf')
+
     def minimise(self, up, dt, iters=3):
         I = impl()
         jnp = I['jnp']
@@ -152,15 +196,30 @@ def nrm(x):
     return float(impl()['jnp'].linalg.norm(x))
 
 
-def check_steps(ctx, P, r, nsteps, kind, distinct):
-    """run nsteps of the real integrator; returns number of steps.  kind: 'general' | 'energy' | 'translation'"""
+def check_steps(ctx, P, r, nsteps, kind, distinct, init=None, dts_fixed=None):
+    """run nsteps of the real integrator; returns number of steps.  kind: 'general' | 'energy' | 'translation'.
+    init = (U, V, A) and dts_fixed replay a recorded state exactly (every failure case stores U0, V0, A0 and the step sizes)"""
     I = impl()
     jnp, onp = I['jnp'], I['onp']
     n = P.n
     Lx = P.args['xExtent'][1]
     amp = 0.05 * Lx
-    case0 = dict(fn='newmark', kind=kind, **P.args)
-    if kind == 'translation':
+    a_ = P.args
+    hmin = min((a_['xExtent'][1] - a_['xExtent'][0]) / (a_['Nx'] - 1), (a_['yExtent'][1] - a_['yExtent'][0]) / (a_['Ny'] - 1)) / a_['order']
+    dt_unit = Lx / math.sqrt(P.args['E'] / P.rho) * 10
+    dt_max = 10.0 ** -0.5 * dt_unit
+    if P.args['material'] != 'linear':
+        # a finite-strain material is only defined for det(I + grad u) > 0: keep the random nodal displacements well below the node spacing
+        # (0.05 * Lx can exceed the element height of a thin mesh and invert elements -- an inadmissible state, not a library failure);
+        # the start state is then TESTED for det F > 0.4 below and every later state is tested again
+        amp = min(amp, 0.1 * hmin)
+    nonlinear = P.args['material'] != 'linear'
+    c, off = (0.0, 0.0), (0.0, 0.0)
+    if init is not None:
+        U, V, A = (jnp.array(x, dtype=float) for x in init)
+        if kind == 'translation':
+            c, off = (float(V[0]), float(V[1])), (float(U[0]), float(U[1]))
+    elif kind == 'translation':
         c = (r.uniform(-1, 1), r.uniform(-1, 1))
         off = (r.uniform(-1, 1), r.uniform(-1, 1)) if r.random() < 0.5 else (0.0, 0.0)
         if P.mode == 'axisymmetric':      # only the axial translation is a rigid motion of a body of revolution
@@ -170,6 +229,9 @@ def check_steps(ctx, P, r, nsteps, kind, distinct):
         A = jnp.zeros(n)
     else:
         V = jnp.array([r.uniform(-1, 1) for _ in range(n)])
+        if nonlinear:
+            # keep the motion inside the uninverted range over the run: velocity * largest step well below the node spacing
+            V = V * (0.1 * hmin / dt_max)
         if P.full_rule:
             U = jnp.array([r.uniform(-amp, amp) for _ in range(n)])
             # consistent initial acceleration: M A0 + fint(U0) = 0
@@ -179,6 +241,14 @@ def check_steps(ctx, P, r, nsteps, kind, distinct):
             # under-integrating rule: the mass matrix may be singular; start from rest position (fint = 0, A0 = 0 is consistent)
             U = jnp.zeros(n)
             A = jnp.zeros(n)
+    if init is None and nonlinear:
+        # admissible start: det(I + grad u) > 0.4 at every quadrature point (components and neighbouring nodes can add up, so test, not estimate)
+        shrink = 0
+        while P.min_detF(U) <= 0.4 and shrink < 60:
+            U, shrink = 0.5 * U, shrink + 1
+        A = -jnp.linalg.solve(P.hke(jnp.zeros(n)), P.gse(U)) if P.full_rule else A
+        ctx.cov['nonlinear_start_min_detF'] = P.min_detF(U)
+    case0 = dict(fn='newmark', kind=kind, U0=[float(x) for x in U], V0=[float(x) for x in V], A0=[float(x) for x in A], **P.args)
     E0 = float(P.ke(V) + P.se(U))
     if not (math.isfinite(E0) and bool(jnp.all(jnp.isfinite(A)))):
         ctx.fail('conclusion', 'initial energy or consistent initial acceleration is not finite (E0 = %r): the reported kinetic/strain '
@@ -188,17 +258,21 @@ def check_steps(ctx, P, r, nsteps, kind, distinct):
     dts = []
     worst = dict(balance=0.0, stationarity=0.0, update=0.0, drift=0.0, translation=0.0)
     for k in range(nsteps):
-        dt = 10.0 ** r.uniform(-2.5, -0.5) * Lx / math.sqrt(P.args['E'] / P.rho) * 10
+        dt = float(dts_fixed[k]) if dts_fixed is not None and k < len(dts_fixed) else 10.0 ** r.uniform(-2.5, -0.5) * dt_unit
         dts.append(dt)
         U1, V1, A1, Up = P.step(U, V, A, dt)
         case = dict(case0, step=k, dts=list(dts), seed_stream=kind)
+        if nonlinear and not P.min_detF(U1) > 0.4:
+            ctx.notes.append('finite-strain run left the uninverted range (min det F = %.3g) at step %d: stream stopped there' % (P.min_detF(U1), k))
+            return k
+        floor = P.rounding_floor(U1, Up, dt)
         # (a) the harness' minimiser did its job (not a property clause; guards the other checks)
         g = P.galg(U1, Up, dt)
         fi, ma = P.gse(U1), P.gke(A1)
         fsc = nrm(fi) + nrm(ma) + 1e-300
         if fsc > 1e-6:
             worst['stationarity'] = max(worst['stationarity'], nrm(g) / fsc)
-        if not (nrm(g) <= 1e-8 * fsc + 1e-12):
+        if not (nrm(g) <= 1e-8 * fsc + 1e-12 + floor):
             ctx.notes.append('harness Newton solve did not converge at step %d (%s): |grad| = %.3g' % (k, kind, nrm(g)))
             if P.args['material'] == 'linear':
                 # the algorithmic energy of a linear-elastic body is a convex quadratic: Newton on its exact Hessian cannot fail unless
@@ -210,7 +284,7 @@ def check_steps(ctx, P, r, nsteps, kind, distinct):
         res = nrm(fi + ma)
         if fsc > 1e-6:
             worst['balance'] = max(worst['balance'], res / fsc)
-        if not (res <= 1e-8 * fsc + 1e-12):
+        if not (res <= 1e-8 * fsc + 1e-12 + floor):
             ctx.fail('conclusion', 'balance of momentum violated after the step: |M A1 + fint(U1)| = %.3g (forces %.3g)' % (res, fsc), case=case, concrete=True)
         # (c) Newmark update formulas
         b_, g_ = P.beta, P.gamma
@@ -319,7 +393,69 @@ def check_hypotheses_and_mass(ctx, P, r):
     if not (abs(T - Tex) <= 1e-11 * Tex):
         ctx.fail('conclusion', 'kinetic energy of a rigid velocity %r is %r, expected 1/2 rho area |v|^2 = %r' % (vel, T, Tex), case=case, concrete=True)
     ctx.cov['element_mass_array_shape'] = list(onp.array(P.dyn.compute_element_masses()).shape)
+    # premises of the C15_fe_* theorems on the real tables of this function space: positive volume weights, one shape value / gradient per
+    # element node, shape values sum to 1 and shape gradients to 0 at every quadrature point (C03's identities, here on the actual arrays)
+    shp, grd, vol = onp.array(P.fs.shapes), onp.array(P.fs.shapeGrads), onp.array(P.fs.vols)
+    nen = onp.array(P.mesh.conns).shape[1]
+    if not (shp.shape[2] == nen and grd.shape[2] == nen and grd.shape[3] == 2 and shp.shape[:2] == vol.shape and grd.shape[:2] == vol.shape):
+        ctx.fail('correspondence', 'function-space arrays do not have one shape value / gradient per element node and quadrature point: shapes %r shapeGrads %r vols %r conns %r'
+                 % (shp.shape, grd.shape, vol.shape, onp.array(P.mesh.conns).shape), case=case)
+    else:
+        pou_def = float(abs(shp.sum(axis=2) - 1).max())
+        gs_def = float(abs(grd.sum(axis=2)).max() / max(abs(grd).max(), 1e-300))
+        ctx.cov['worst_shape_sum_defect'] = max(ctx.cov.get('worst_shape_sum_defect', 0.0), pou_def)
+        ctx.cov['worst_grad_sum_defect_rel'] = max(ctx.cov.get('worst_grad_sum_defect_rel', 0.0), gs_def)
+        if not (vol.min() > 0):
+            ctx.fail('conclusion', 'a quadrature-point volume weight is not positive (min %r): premise w_q > 0 of the definiteness theorems' % float(vol.min()), case=case, concrete=True)
+        if not (pou_def <= 1e-12 and gs_def <= 1e-11):
+            ctx.fail('conclusion', 'shape functions do not sum to 1 (defect %r) or their gradients not to 0 (relative defect %r) at a quadrature point: '
+                     'premises of the mass-total and K c = 0 theorems' % (pou_def, gs_def), case=case, concrete=True)
     return dict(M=M, K=K, sxx=sxx)
+
+
+def fll(xs):
+    return '[' + '; '.join(fl(x) for x in xs) + ']'
+
+
+FE_PREAMBLE = ('Definition fld (l : list float) : nat * bool -> float := '
+               'fun d => nth (2 * fst d + (if snd d then 1 else 0))%nat l (F 0 0).')
+FE_NAMES = ['fe_kinetic_energy', 'fe_strain_energy', 'fe_alg_energy', 'fe_mass_form(u,v)', 'fe_stiff_form(u,v)', 'fe_volume']
+
+
+def fe_tie_case(ctx, P, r):
+    """model of the mesh integrals (model/M_C15_FE.v) on the real function space of problem P: one Coq expression evaluating the modelled
+    kinetic / strain / algorithmic energy, the mass and stiffness forms on random fields and the total volume at binary64, and the values
+    the implementation gives (reported energies; forms through the jax Hessians of the reported energies), each with a rounding scale"""
+    I = impl()
+    jnp, onp = I['jnp'], I['onp']
+    fs = P.fs
+    conns, shp, grd, vol = onp.array(P.mesh.conns), onp.array(fs.shapes), onp.array(fs.shapeGrads), onp.array(fs.vols)
+    n = P.n
+    Lx = P.args['xExtent'][1] - P.args['xExtent'][0]
+    u = onp.array([r.uniform(-0.05 * Lx, 0.05 * Lx) for _ in range(n)])
+    v = onp.array([r.uniform(-1, 1) for _ in range(n)])
+    up = u + onp.array([r.uniform(-0.01 * Lx, 0.01 * Lx) for _ in range(n)])
+    dt = 10.0 ** r.uniform(-2, 0)
+    els = []
+    for e in range(conns.shape[0]):
+        qs = ['(mkQ %s %s %s %s)' % (fl(vol[e, q]), fll(shp[e, q, :]), fll(grd[e, q, :, 0]), fll(grd[e, q, :, 1])) for q in range(vol.shape[1])]
+        els.append('([%s]%%nat, [%s])' % ('; '.join(str(int(a)) for a in conns[e]), '; '.join(qs)))
+    a = P.args
+    rho, E, nu, beta = fl(a['rho']), fl(a['E']), fl(a['nu']), fl(a['beta'])
+    expr = ("(let mesh : list (@elem float nat) := [%s] in let u := fld %s in let v := fld %s in let up := fld %s in "
+            "let '(_, _, mu, kappa) := le_make_properties %s %s in "
+            "fencs [fe_kinetic_energy %s mesh v; fe_strain_energy %s %s mesh u; fe_alg_energy %s %s %s %s %s mesh up u; "
+            "fe_mass_form %s mesh u v; fe_stiff_form mu kappa mesh u v; fe_volume mesh])"
+            % ('; '.join(els), fll(u), fll(v), fll(up), E, nu, rho, E, nu, rho, E, nu, beta, fl(dt), rho))
+    ju, jv, jup = jnp.array(u), jnp.array(v), jnp.array(up)
+    M = onp.array(P.hke(jnp.zeros(n)))
+    K = onp.array(P.hse(jnp.zeros(n)))
+    ke, se = float(P.ke(jv)), float(P.se(ju))
+    ealg = float(P.dyn.compute_algorithmic_energy(ju.reshape(P.shape), jup.reshape(P.shape), P.state, dt))
+    kin_part = float(P.ke(ju - jup)) / (a['beta'] * dt * dt)
+    vals = [ke, se, ealg, float(u @ M @ v), float(u @ K @ v), float(vol.sum())]
+    scales = [abs(ke), abs(se), abs(se) + abs(kin_part), math.sqrt(abs(u @ M @ u) * abs(v @ M @ v)), math.sqrt(abs(u @ K @ u) * abs(v @ K @ v)), float(abs(vol).sum())]
+    return dict(expr=expr, vals=vals, scales=scales, case=dict(fn='fe_model', u_seed='stream problems', **a))
 
 
 def kernel_cases(ctx):
@@ -367,7 +503,9 @@ def correspondence(ctx, model_ok):
         check_hypotheses_and_mass(ctx, Pu, r)
         evals += 6 + check_steps(ctx, Pu, r, ctx.n(25, 120), 'energy', distinct)
         ctx.log('under-integrated problem (order %d, rule degree %d, distorted, %d dofs) done' % (order, qd, Pu.n))
+    fe_problems = [Pu]      # the last under-integrated problem (quick: order 2 with the degree-2 rule, distorted)
     Pd = random_problem(ctx, r, trapezoidal=True, order=2, distort=0.3)
+    fe_problems.append(Pd)
     check_hypotheses_and_mass(ctx, Pd, r)
     evals += 6 + check_steps(ctx, Pd, r, ctx.n(25, 120), 'energy', distinct)
     ctx.log('distorted fully integrated order-2 problem done')
@@ -419,6 +557,10 @@ def correspondence(ctx, model_ok):
     for (a, b, d), v in zip(ked, ked_impl):
         if not (abs(v - 0.5 * d * (a * a + b * b)) <= 1e-14 * abs(v)):
             ctx.fail('conclusion', 'kinetic_energy_density(%r, %r) = %r is not 1/2 rho v.v' % ((a, b), d, v), case=dict(fn='ked', v=(a, b), rho=d), concrete=True)
+    # ---- the mesh-integral model (model/M_C15_FE.v) on real function spaces: structured order 1, distorted order 2 (fully and under-integrated)
+    rfe = ctx.rng('fe_model')
+    fe_cases = [fe_tie_case(ctx, Pq, rfe) for Pq in [P0] + fe_problems]
+    evals += len(FE_NAMES) * len(fe_cases)
     ctx.count('evaluations', evals + len(ked))
     ctx.count('distinct_nontrivial', len(distinct))
     ctx.sample(dict(fn='predict/correct', gamma=kc[0][0], beta=kc[0][1], U=kc[0][2], V=kc[0][3], A=kc[0][4], dt=kc[0][5], impl=impl_out[0]))
@@ -453,6 +595,7 @@ def correspondence(ctx, model_ok):
     if pou > 1e-13:
         ctx.fail('conclusion', 'shape functions do not sum to 1 at a quadrature point (defect %r): premise of the mass theorems' % pou, case=dict(fn='forms', **P.args), concrete=True)
     res = C.coq_eval(IMPORTS, ex, 'C15', shard=400)
+    fe_res = C.coq_eval(IMPORTS, [c['expr'] for c in fe_cases], 'C15fe', shard=1, preamble=FE_PREAMBLE)
     mism = 0
     for i, (g, b, U, V, A, dt, kind) in enumerate(kc):
         v = C.dec_floats(res[i])
@@ -479,7 +622,19 @@ def correspondence(ctx, model_ok):
     if forms['sxx'] == forms['sxx'] and not C.close(v[1], forms['sxx'], rtol=1e-12, atol=0):
         mism += 1
         ctx.fail('correspondence', 'model mass_total = %r but the x-x entries of compute_element_masses sum to %r' % (v[1], forms['sxx']), case=dict(fn='forms', **P.args))
-    ctx.count('model_vs_impl_comparisons', len(kc) * 4 + len(ked) + 2)
+    worst_fe = 0.0
+    for c, zs in zip(fe_cases, fe_res):
+        mv = C.dec_floats(zs)
+        for nm, a_, b_, sc in zip(FE_NAMES, mv, c['vals'], c['scales']):
+            err = abs(a_ - b_) / max(sc, 1e-300) if (a_ == a_ and b_ == b_) else float('inf')
+            worst_fe = max(worst_fe, err)
+            if not err <= 1e-12:
+                mism += 1
+                ctx.fail('correspondence', 'mesh-integral model %s = %r but the implementation gives %r (rounding scale %.3g, order %d, rule degree %d)'
+                         % (nm, a_, b_, sc, c['case']['order'], c['case']['qdeg']), case=c['case'])
+    ctx.cov['worst_fe_model_vs_impl_rel'] = worst_fe
+    ctx.count('fe_model_problems', len(fe_cases))
+    ctx.count('model_vs_impl_comparisons', len(kc) * 4 + len(ked) + 2 + len(FE_NAMES) * len(fe_cases))
     ctx.count('model_vs_impl_mismatches', mism)
 
 
@@ -518,6 +673,8 @@ def replay(ctx, path):
         r = c2.rng('replay')
         if case['fn'] == 'forms':
             check_hypotheses_and_mass(c2, P, r)
+        elif 'U0' in case:
+            check_steps(c2, P, r, max(len(case.get('dts', [])), 1), case['kind'], set(), init=(case['U0'], case['V0'], case['A0']), dts_fixed=case.get('dts'))
         else:
             check_steps(c2, P, r, max(len(case.get('dts', [])), 10), case['kind'], set())
         bad = [f['what'] for f in c2.failures]
